@@ -740,6 +740,11 @@ class VectorContainer:
                 else:
                     value = str(value)
 
+            # Take the existing values from the (deep) copy made above, so that
+            # the elements of object-dtype variables are not shared with the
+            # original
+            source = reindexed.__dict__[f'_{name}']
+
             # Initialise the replacement with the correct length, and the fill
             # value
             reindexed.__dict__[f'_{name}'] = np.full(
@@ -749,7 +754,7 @@ class VectorContainer:
             # Copy over individual values
             # TODO: Vectorise this?
             for new, old in positions.items():
-                reindexed[name][new] = self[name][old]
+                reindexed[name][new] = source[old]
 
         return reindexed
 
